@@ -28,7 +28,7 @@ import (
 // C36 — SQL results equal direct filtering of the topic's records.
 //
 // For every generated set of segment objects (written to a loopback HTTP S3 by an independent
-// builder), in five storage variants (plain; time-index sidecars built by the real
+// builder), in up to five storage variants (plain; time-index sidecars built by the real
 // TimeIndexBuilder; manifest built by the real ManifestBuilder; both as the backfill tool builds
 // them; manifest built over a time-index-aware lister so that it carries time statistics), every
 // query of the filter product is answered by the real Server.handleQuery (pgproto3 backend over a
@@ -238,7 +238,11 @@ func c36Sets(b c36Bounds, f func(i int, set c36Set) bool) int {
 		for _, k := range layout {
 			n += k
 		}
-		for _, gm := range c36GapMasks(len(layout), b.F2Gaps) {
+		masks := []int{0}
+		if b.F2Gaps {
+			masks = c36GapMasks(len(layout), true)
+		}
+		for _, gm := range masks {
 			for seg := 0; seg < len(layout); seg++ {
 				for _, kind := range []string{"no-index", "no-footer"} {
 					for tsIdx := 0; tsIdx < c36Pow(len(b.F2TS), n); tsIdx++ {
@@ -491,7 +495,12 @@ func (m *c36MemoDecoder) Decode(ctx context.Context, segmentKey, indexKey string
 
 // ---------- per-worker environment ----------
 
-var c36Variants = []string{"plain", "time-index", "manifest", "manifest+time-index", "manifest-with-time-stats"}
+var c36AllVariants = []string{"plain", "time-index", "manifest", "manifest+time-index", "manifest-with-time-stats"}
+
+// quick leaves out manifest+time-index (cmd/backfill -mode all): its manifest carries no time
+// statistics and, being non-empty, is served without consulting the sidecars — the same lister
+// behaviour as "manifest".
+var c36Variants = []string{"plain", "time-index", "manifest", "manifest-with-time-stats"}
 
 type c36Env struct {
 	s3      *c36S3
@@ -517,7 +526,7 @@ func c36BaseConfig(endpoint string) config.Config {
 func c36NewEnv() (*c36Env, error) {
 	e := &c36Env{s3: c36NewS3(), cfgs: map[string]config.Config{}, memoSrv: map[string]*Server{}, listers: map[string]*c36MemoLister{}, decs: map[string]*c36MemoDecoder{}, realSrv: map[string]*Server{}}
 	base := c36BaseConfig(e.s3.URL())
-	for _, v := range c36Variants {
+	for _, v := range c36AllVariants {
 		cfg := base
 		switch v {
 		case "time-index":
@@ -889,6 +898,7 @@ func TestVerifC36(t *testing.T) {
 	bounds := c36QuickBounds()
 	if vh.Thorough() {
 		bounds = c36ThoroughBounds()
+		c36Variants = c36AllVariants
 	}
 
 	var replay c36Replay
